@@ -11,6 +11,7 @@ import Mfi.Lemmas.ResL
 import Mfi.Props.C10
 import Mfi.Props.C08
 import Mfi.Model.Interest
+import Mfi.Lemmas.WorldL
 namespace Mfi.Props.C12
 open Mfi Mfi.Admin Mfi.Gen
 
@@ -288,5 +289,51 @@ theorem migrate_can_change_the_curve :
     ∃ c', Mfi.Interest.migrateCurve frozenLegacy = .ok c' ∧
       ∃ r, Mfi.Interest.baseRate c' Mfi.Fx.ONE = .ok r ∧ r < 10 * Mfi.Fx.ONE + 1 ∧ 9 * Mfi.Fx.ONE < r := by
   refine ⟨by rfl, by rfl, _, by rfl, _, by rfl, by decide, by decide⟩
+
+section whole_instructions
+open Mfi Mfi.World Mfi.Gen Mfi.Gen.Acc Mfi.Admin
+
+/-! ### whole instructions (Mfi/Model/World.lean) -/
+
+/-- **world_deleverage_withdrawal_is_metered**: a withdrawal from an account flagged as being deleveraged goes through
+    only if the group's daily window accepts the whole-dollar value of the tokens that leave (valued at the receivership
+    price, unweighted): with a non-zero limit, today's counter after the instruction is the counter of the (possibly reset)
+    window plus those dollars, and does not exceed the limit. -/
+theorem world_deleverage_withdrawal_is_metered {c : Ctx} {amt : Int} {all : Bool} {o : Out}
+    (h : World.withdraw c amt all = .ok o) (hd : flag c ACCOUNT_IN_DELEVERAGE = true) (hl : c.g.window.dailyLimit ≠ 0) :
+    ∃ price v, withdrawPrice c = .ok price ∧
+      Risk.calcValue (Fx.ofInt o.tokens) price (Bank.balanceDecimals o.books) none = .ok v ∧
+      o.window = { resetWindow c.g.window c.now with withdrawnToday := (resetWindow c.g.window c.now).withdrawnToday + v / Fx.ONE } ∧
+      0 ≤ v / Fx.ONE ∧ o.window.withdrawnToday ≤ o.window.dailyLimit ∧ o.window.dailyLimit = c.g.window.dailyLimit := by
+  obtain ⟨price, b, i, s, x', pre, hp, _, _, _, _, hw, _⟩ := (withdraw_ok h).core
+  unfold withdrawWindow at hw
+  rw [if_pos hd] at hw
+  obtain ⟨v, hv, hw⟩ := Res.bind_ok hw
+  unfold updateWithdrawnEquity at hw
+  have hlim := (reset_spec c.g.window c.now).1
+  obtain ⟨e, h0, hle⟩ := addDollars_spec hw (by rw [hlim]; exact hl)
+  refine ⟨price, v, hp, hv, e, h0, ?_, ?_⟩
+  · rw [e]; simpa using hle
+  · rw [e]; simpa using hlim
+
+/-- every other path leaves the window alone: deposits, borrows, repayments, closures, and withdrawals from accounts that
+    are not being deleveraged -/
+theorem world_window_frame (c : Ctx) :
+    (∀ amt up o, World.deposit c amt up = .ok o → o.window = c.g.window) ∧
+    (∀ amt o, World.borrow c amt = .ok o → o.window = c.g.window) ∧
+    (∀ amt all o, World.repay c amt all = .ok o → o.window = c.g.window) ∧
+    (∀ o, World.closeBalance c = .ok o → o.window = c.g.window) ∧
+    (∀ amt all o, World.withdraw c amt all = .ok o → flag c ACCOUNT_IN_DELEVERAGE = false → o.window = c.g.window) := by
+  refine ⟨fun _ _ _ h => (deposit_ok h).window, fun _ _ h => (borrow_ok h).window, fun _ _ _ h => (repay_ok h).window,
+    fun _ h => (close_ok h).rest.2, ?_⟩
+  intro amt all o h hd
+  obtain ⟨price, b, i, s, x', pre, _, _, _, _, _, hw, _⟩ := (withdraw_ok h).core
+  unfold withdrawWindow at hw
+  rw [hd] at hw
+  simp only [Bool.false_eq_true, if_false] at hw
+  injection hw with hw
+  exact hw.symm
+
+end whole_instructions
 
 end Mfi.Props.C12
